@@ -409,13 +409,32 @@ def c05_monitors(case, obs):
     """C05 for monitor streams: monitor updates are never replayed, so they always get fresh seq_nums - also across a
     rewind - and a stream fed only by monitor updates is numbered exactly 1..N with N = its num_events in the RunStop."""
     view = View()
+    cleared = False   # clear_checkpoint seen and no checkpoint since
+    opened = False
     mon = {}          # stream -> seq_nums of the monitor events of the current run, in order
     other = set()     # streams that also got events from elsewhere (bundles, collect)
     for i, (op, o) in enumerate(zip(case["ops"], obs)):
         k, docs, res = op[0], o["docs"], o["res"]
         where = "op %d %s: " % (i, k)
-        if k == "open_run" and res == "ok":
+        # one bundler = one run: the engine creates the bundler at open_run and drops it at close_run, so only the ops
+        # from the first open_run to the first close_run are a history the engine can produce
+        if k == "open_run":
+            if opened:
+                return None
+            opened = res == "ok"
             mon, other = {}, set()
+        elif not opened:
+            for d in docs:
+                view.see(d)
+            continue
+        # the engine rewinds only while a checkpoint is in effect: a bundler-level `rewind` after `clear_checkpoint` (which
+        # empties the snapshot) with no checkpoint in between restarts every stream at 1 and is not a history of the engine
+        if k == "clear_checkpoint":
+            cleared = True
+        elif k in ("checkpoint", "reset_checkpoint") and res == "ok":
+            cleared = False
+        elif k == "rewind" and cleared:
+            return None
         for d in docs:
             view.see(d)
             if d[0] == "event":
@@ -437,4 +456,5 @@ def c05_monitors(case, obs):
                     if seqs != list(range(1, len(seqs) + 1)) or ne.get(nm) != len(seqs):
                         return where + ("stream %s holds the monitor updates with seq_nums %r, the RunStop says num_events=%r"
                                         % (nm, seqs, ne.get(nm)))
+                return None
     return None
